@@ -50,6 +50,10 @@ def run(rep: common.Report, tier: str, seed: int):
     for _ in range(700 if quick else 8000):
         ln, f, rate = num_case(rng)
         per_call = rng.random() < 0.5
+        fcall = f
+        if per_call and rng.random() < 0.3:
+            fcall = rng.choice([np.float32, np.float64])(f)       # a numpy scalar; the value that counts is the one passed
+            f = float(fcall)
         lp = LaserPath(speed=(1.0 if per_call else f), cmd_rate_max=rate)
         if rng.random() < 0.3:
             # speed and cmd_rate_max are public attributes: set after a first count with other values
@@ -59,7 +63,7 @@ def run(rep: common.Report, tier: str, seed: int):
             lp.speed, lp.cmd_rate_max = (1.0 if per_call else f), rate
         with pgm.quiet():
             try:
-                n = lp.num_subdivisions(ln, f if per_call else None)
+                n = lp.num_subdivisions(ln, fcall if per_call else None)
             except ValueError:
                 n = None
         cases.append({'kind': 'num', 'len': ln, 'f': f, 'rate': rate, 'per_call': per_call})
@@ -72,7 +76,10 @@ def run(rep: common.Report, tier: str, seed: int):
         rate = rng.choice([40, 100, 250, 1200])
         speed = rng.choice([1.0, 5.0, 20.0])
         per_call = rng.choice([None, None, 10.0, 33.0])
-        f = per_call if per_call is not None else speed
+        if per_call is not None and rng.random() < 0.4:
+            # a numpy scalar (a speed read from an array): np.float32 / np.int64 are not python floats or ints
+            per_call = rng.choice([np.float32, np.int64, np.float64])(per_call)
+        f = float(per_call) if per_call is not None else speed
         radius = rng.choice([5.0, 15.0, 25.0, 40.0])
         wg = Waveguide(speed=speed, cmd_rate_max=rate, radius=radius)
         reset = rng.random() < 0.3
